@@ -1,4 +1,5 @@
-"""The element-type dimension of an input: the same matrix as int64, int32, uint8, bool (0/1 only) arrays.
+"""The element-type dimension of an input: the same matrix as int64, int32, uint8, bool (0/1 only) arrays, and as
+float64 with every zero stored as -0.0.
 
 Rule used by the engine-B checks: the float64 result is the one compared with the oracle; for every other
 element type the routine must return the same values (tolerance 1e-9; 1e-5 for bool and uint8, which numpy's
@@ -14,7 +15,7 @@ from bctmc.runner import guarded
 def variants(A):
     A = np.asarray(A)
     integral = bool(np.all(A == np.round(A)))
-    out = []
+    out = [('negzero', np.where(A == 0, -0.0, A.astype(float)))]       # absent connections stored as -0.0 (e.g. W * (W > 0))
     if integral:
         out.append(('int64', A.astype(np.int64)))
         out.append(('int32', A.astype(np.int32)))
